@@ -1,5 +1,5 @@
 (** C04 - named bind group fields reach their own slot; groups bind at own index (structure). *)
-From W2W Require Import Wf C04Spec C04Proof.
+From W2W Require Import Wf C04Spec C04Proof Obs C04Obs.
 
 (** For every wf module the generator accepts: each group N has exactly one field per variable of the
     group, in declaration order, named after it and typed by kind, names pairwise distinct;
@@ -22,3 +22,59 @@ Example C04_nonvacuous :
     map (fun og => map (fun e => (be_binding e, be_field e)) (og_bind_entries og)) (C03Spec.groups_of out_)
     = [[(4%N, "s")]; [(9%N, "b"); (2%N, "a")]].
 Proof. split; [reflexivity|]. eexists. split; vm_compute; reflexivity. Qed.
+
+(** The property as stated, over what the generated code DOES ([Spec/Obs.v]: the descriptors handed to the device and the
+    [set_bind_group] calls, with index-named items resolved the way rustc resolves them). For every wf module the
+    generator accepts and that has resource variables, with groups [0 .. n-1]:
+    - the groups of the output are exactly 0 .. n-1, in order;
+    - for group N: [BindGroupLayoutN] has one field per variable of the group, in declaration order, named after it and
+      typed by its resource kind, names pairwise distinct; [from_bindings] hands the device one entry per variable,
+      passing the value of FIELD x at the @binding index of VARIABLE x, the indices supplied are exactly those of the
+      layout it creates, and that layout is group N's own; [set] makes one call [set_bind_group(N, group N's bind
+      group, [])];
+    - [BindGroups::set] and [set_bind_groups] make exactly the calls (0, group 0), .., (n-1, group n-1), in that order;
+    - the pipeline layout lists, in slot k, the layout of group k (the one with group k's binding indices). *)
+Theorem C04_holds : forall m src inc o out_ bg,
+  wf m = true -> gen m src inc o = Ok out_ -> o_bind_groups out_ = Some bg ->
+  let idx := N_range 0 (length (bg_groups bg)) in
+  map og_no (bg_groups bg) = idx /\
+  (forall og, In og (bg_groups bg) ->
+     obs_from_bindings bg og = Some (map (fun x => fst (fst x)) (named_vars m (og_no og)), named_vars m (og_no og)) /\
+     length (named_vars m (og_no og)) = length (group_vars m (og_no og)) /\
+     map (fun v => (fst (fst v), snd (fst v))) (group_vars m (og_no og))
+       = map (fun f : string * res_kind => (Some (fst f), Some (snd f))) (og_layout_fields og) /\
+     str_nodup (map fst (og_layout_fields og)) = true /\
+     obs_set og = (og_no og, og_no og)) /\
+  obs_bindgroups_set bg = Some (map (fun k => (k, k)) idx) /\
+  obs_set_bind_groups bg = Some (map (fun k => (k, k)) idx) /\
+  obs_pipeline_layout out_ = Some (map (fun k => (k, map (fun x => fst (fst x)) (named_vars m k))) idx).
+Proof.
+  intros m src inc o out_ bg Hwf Hgen Hbg idx.
+  pose proof (C04_ok_gen m src inc o out_ Hwf Hgen) as Hok.
+  split; [destruct (parts m out_ bg Hok Hbg) as (_ & H & _); exact H|].
+  split; [intros og Hin; destruct (from_bindings_obs m out_ bg Hok Hbg og Hin) as (H1 & H2 & H3 & H4);
+          repeat split; try assumption; apply (set_obs m out_ bg Hok Hbg og Hin)|].
+  split; [apply (bindgroups_set_obs m out_ bg Hok Hbg)|].
+  split; [apply (set_bind_groups_obs m out_ bg Hok Hbg)|apply (pipeline_layout_obs m out_ bg Hok Hbg)].
+Qed.
+Print Assumptions C04_holds.
+
+(** modules without resource variables get no bind_groups module and an empty pipeline layout *)
+Theorem C04_holds_none : forall m src inc o out_,
+  wf m = true -> gen m src inc o = Ok out_ -> o_bind_groups out_ = None ->
+  has_bound m = false /\ obs_pipeline_layout out_ = Some [].
+Proof.
+  intros m src inc o out_ Hwf Hgen Hbg. pose proof (C04_ok_gen m src inc o out_ Hwf Hgen) as Hok.
+  unfold C04_ok in Hok. rewrite Hbg in Hok. apply andb_true_iff in Hok as [Hb Hpl].
+  split; [destruct (has_bound m); [discriminate|reflexivity]|].
+  unfold obs_pipeline_layout. rewrite Hbg. destruct (o_pl_groups out_); [reflexivity|discriminate].
+Qed.
+Print Assumptions C04_holds_none.
+
+Example C04_obs_nonvacuous :
+  exists out_ bg, gen ex_mod "" None (mkOptions false false false false MVRust) = Ok out_ /\ o_bind_groups out_ = Some bg /\
+    map (obs_from_bindings bg) (bg_groups bg)
+      = [Some ([4%N], [(4%N, "s", RKSampler)]); Some ([9%N; 2%N], [(9%N, "b", RKBuffer); (2%N, "a", RKBuffer)])] /\
+    obs_set_bind_groups bg = Some [(0%N, 0%N); (1%N, 1%N)] /\
+    obs_pipeline_layout out_ = Some [(0%N, [4%N]); (1%N, [9%N; 2%N])].
+Proof. eexists. eexists. repeat split; vm_compute; reflexivity. Qed.
